@@ -250,6 +250,16 @@ func (w *World) writerPaths(fn *ssa.Function) *writerInfo {
 			if reachesBoundary[callee] {
 				return true
 			}
+			// a function literal written in a function that is being explored is part of
+			// that function's body (`next := func() (item interface{}, more bool) {…}`
+			// driving the element loop: the position and the bound test live in it)
+			if callee.Parent() != nil && len(callee.Blocks) <= 40 {
+				for f := fr; f != nil; f = f.parent {
+					if f.fn == callee.Parent() {
+						return true
+					}
+				}
+			}
 			res := callee.Signature.Results()
 			if res.Len() == 0 || len(callee.Blocks) > 40 {
 				return false
@@ -261,17 +271,34 @@ func (w *World) writerPaths(fn *ssa.Function) *writerInfo {
 			if prm := callee.Signature.Params(); callee.Signature.Recv() == nil && prm.Len() == 1 && res.Len() == 1 && isStringType(prm.At(0).Type()) && isStringType(res.At(0).Type()) {
 				return false
 			}
+			scalar := func(t types.Type) bool {
+				if _, _, isInt := intTypeInfo(w, t); isInt {
+					return true
+				}
+				b, ok := t.Underlying().(*types.Basic)
+				return ok && b.Info()&(types.IsBoolean|types.IsString) != 0
+			}
 			for i := 0; i < res.Len(); i++ {
-				if _, _, isInt := intTypeInfo(w, res.At(i).Type()); !isInt {
-					if b, ok := res.At(i).Type().Underlying().(*types.Basic); !ok || b.Info()&(types.IsBoolean|types.IsString) == 0 {
-						// a `(value, ok)` accessor (`dateValue(v) (time.Time, bool)`): the flag decides
-						// the caller's branch, and what the accessor tested (a dynamic type) is part
-						// of the path — stepped into whatever the type of the value
-						if i == 0 && res.Len() == 2 {
-							if b2, ok2 := res.At(1).Type().Underlying().(*types.Basic); ok2 && b2.Info()&types.IsBoolean != 0 {
-								return true
-							}
-						}
+				if scalar(res.At(i).Type()) {
+					continue
+				}
+				// a `(value, ok)` accessor (`dateValue(v) (time.Time, bool)`): the flag decides
+				// the caller's branch, and what the accessor tested (a dynamic type) is part
+				// of the path — stepped into whatever the type of the value
+				if i == 0 && res.Len() == 2 {
+					if b2, ok2 := res.At(1).Type().Underlying().(*types.Basic); ok2 && b2.Info()&types.IsBoolean != 0 {
+						return true
+					}
+				}
+				// the chosen form handed back as a small struct of such scalars
+				// (`listHeader{tag, typeName, hasType, hasLen}`): its components are
+				// the same choices
+				stt, ok := res.At(i).Type().Underlying().(*types.Struct)
+				if !ok || stt.NumFields() == 0 || stt.NumFields() > 8 {
+					return false
+				}
+				for j := 0; j < stt.NumFields(); j++ {
+					if !scalar(stt.Field(j).Type()) {
 						return false
 					}
 				}
